@@ -230,6 +230,33 @@ def digest (H : Hash) (chain : Nat) (addr : Bytes) (props : List Prop') : Bytes 
 
 end Spec
 
+/-! ### what the digest computation feeds to `H` (the statement of the binding theorem is about these) -/
+
+def hpPre (H : Hash) (p : Prop') : Bytes :=
+  H (strBytes Spec.typeProposal) ++ pad32 p.origin ++ pad32 p.nonce ++ p.rid ++ H p.data
+def domPre (H : Hash) (ver : String) (chain : Nat) (addr : Bytes) : Bytes :=
+  H (strBytes Spec.typeDomain) ++ H (strBytes Spec.name) ++ H (strBytes ver) ++ pad32 chain ++ (List.replicate 12 0 ++ addr)
+def arrPre (H : Hash) (ps : List Prop') : Bytes := (ps.map (Spec.hp H)).flatten
+def structPre (H : Hash) (ps : List Prop') : Bytes := H (strBytes Spec.typeProposals) ++ H (arrPre H ps)
+def topPre (H : Hash) (ver : String) (chain : Nat) (addr : Bytes) (ps : List Prop') : Bytes :=
+  [0x19, 0x01] ++ Spec.domSep H ver chain addr ++ Spec.structHash H ps
+/-- per proposal: the pre-image of its struct hash and its data field -/
+def propPres (H : Hash) (ps : List Prop') : List Bytes := ps.flatMap fun p => [hpPre H p, p.data]
+
+/-- every byte string that the digest computation for (version, chain id, address, batch) hands to `H` and that depends
+    on the input: the top-level frame, the domain separator's pre-image, the struct hash's pre-image, the array's
+    pre-image, each proposal's pre-image and each data field (the type strings / name / version are the same constants
+    on both sides of any comparison) -/
+def hashedBy (H : Hash) (ver : String) (chain : Nat) (addr : Bytes) (ps : List Prop') : List Bytes :=
+  [topPre H ver chain addr ps, domPre H ver chain addr, structPre H ps, arrPre H ps] ++ propPres H ps
+
+/-- a collision of `H` EXHIBITED between two explicitly computable lists of pre-images -/
+def ExCollision (H : Hash) (X Y : List Bytes) : Prop := ∃ a ∈ X, ∃ b ∈ Y, a ≠ b ∧ H a = H b
+
+/-- a deliberately weak "hash" with 32-byte outputs (the first 32 bytes, zero padded): used to show that the collision
+    disjunct of the binding theorem is really taken when the hash is bad -/
+def weakH : Hash := fun b => (b ++ List.replicate 32 0).take 32
+
 /-- well-formed batch: the ranges of the Go types (`uint8`, `uint64`, `[32]byte`) -/
 def Prop'.WF (p : Prop') : Prop := p.origin < 2 ^ 8 ∧ p.nonce < 2 ^ 64 ∧ p.rid.length = 32
 instance (p : Prop') : Decidable p.WF := by unfold Prop'.WF; infer_instance
